@@ -7,6 +7,8 @@ import I18n.Model.Date
 import I18n.Model.Locale
 import I18n.Model.CFmt
 import I18n.Model.PyFmt
+import I18n.Model.PyBrace
+import I18n.Model.PerlBrace
 /-
 The pipeline `cli.main → check_all → check_file → Checker.check → check_*` assembled from the component models:
 each component model is wrapped as a `Check.Stage` (an exception of the component = the stage raises), the parsers of the
@@ -132,6 +134,34 @@ def cCheckString (s : List Char) : StringCheck CFmt.Result := checkString cErrSi
 /-- `msgformat.python.Checker.check_string(ctx, message, s)` (exception flow; the two extra tags about unnamed arguments
     raise nothing) -/
 def pyCheckString (s : List Char) : StringCheck PyFmt.Result := checkString pyErrSite (some pyWarnSite) (pyParse s)
+
+def braceErrCls (e : PyBrace.PErr) : Cls :=
+  match e with
+  | .crash x => clsId ("builtins." ++ x.name)
+  | .own c _ => clsId ("lib.strformat.pybrace." ++ c.name)
+
+/-- `strformat.pybrace.FormatString(s)` (C13's model; the parser records no warnings) -/
+def pybraceParse (s : List Char) : Parse PyBrace.Result :=
+  match PyBrace.parse s with
+  | .ok r => .ok (r, [])
+  | .error e => .raised (braceErrCls e)
+
+def perlErrCls (e : PerlBrace.PErr) : Cls :=
+  match e with
+  | .crash x => clsId ("builtins." ++ x.name)
+  | .error _ => clsId "lib.strformat.perlbrace.Error"
+
+/-- `strformat.perlbrace.FormatString(s)` (C13's model) -/
+def perlbraceParse (s : List Char) : Parse PerlBrace.Result :=
+  match PerlBrace.parse s with
+  | .ok r => .ok (r, [])
+  | .error e => .raised (perlErrCls e)
+
+/-- `msgformat.pybrace.Checker.check_string(ctx, message, s)` -/
+def pybraceCheckString (s : List Char) : StringCheck PyBrace.Result := checkString pybraceErrSite none (pybraceParse s)
+
+/-- `msgformat.perlbrace.Checker.check_string(ctx, message, s)` -/
+def perlbraceCheckString (s : List Char) : StringCheck PerlBrace.Result := checkString perlbraceErrSite none (perlbraceParse s)
 
 /-! ## one regular file -/
 
